@@ -56,6 +56,7 @@ package sql
 //@   ensures[err.nil] err != nil ==> result0 == nil
 //@   ensures[str; C08] t.Type == STR ==> err == nil && result0 == t.Text
 //@   ensures[int] t.Type == INT && err == nil ==> typeof(result0) == typ(int64)
+//@   ensures[int.value; C08 C10] t.Type == INT ==> ((err == nil) <==> strAtoiOK(t.Text)) && (err == nil ==> result0 == int64(strAtoi(t.Text)))
 //@   ensures[bool; C08] (t.Type == TRUE ==> err == nil && result0 == true) && (t.Type == FALSE ==> err == nil && result0 == false)
 //@   ensures[other] t.Type != STR && t.Type != INT && t.Type != TRUE && t.Type != FALSE ==> err != nil
 
